@@ -198,98 +198,113 @@ func isCharacterLevel(fragments []text.TextFragment) bool {
 
 // assembleFragmentsIntoLines groups character fragments into line-based fragments
 func assembleFragmentsIntoLines(fragments []text.TextFragment) []text.TextFragment {
+	var assembled []text.TextFragment
+	for _, line := range groupCharacterLines(fragments) {
+		assembled = append(assembled, assembleLine(fragments, line))
+	}
+	return assembled
+}
+
+// groupCharacterLines groups character fragments into lines by Y proximity.
+// Each line lists the indices (into fragments) of its members, sorted by X, so
+// that callers can tell which fragments an assembled line was built from. The
+// input slice is not modified.
+func groupCharacterLines(fragments []text.TextFragment) [][]int {
 	if len(fragments) == 0 {
 		return nil
 	}
 
 	// Sort by Y (descending for typical PDF coords) then by X
-	sorted := make([]text.TextFragment, len(fragments))
-	copy(sorted, fragments)
+	sorted := make([]int, len(fragments))
+	for i := range sorted {
+		sorted[i] = i
+	}
 	sort.Slice(sorted, func(i, j int) bool {
-		yDiff := sorted[i].Y - sorted[j].Y
-		if absFloat(yDiff) > sorted[i].Height*0.5 {
+		a, b := fragments[sorted[i]], fragments[sorted[j]]
+		yDiff := a.Y - b.Y
+		if absFloat(yDiff) > a.Height*0.5 {
 			return yDiff > 0 // Higher Y first
 		}
-		return sorted[i].X < sorted[j].X
+		return a.X < b.X
 	})
 
 	// Group into lines by Y proximity
-	var lines [][]text.TextFragment
-	var currentLine []text.TextFragment
+	var lines [][]int
+	var currentLine []int
 
-	for _, frag := range sorted {
+	for _, idx := range sorted {
 		if len(currentLine) == 0 {
-			currentLine = append(currentLine, frag)
+			currentLine = append(currentLine, idx)
 			continue
 		}
 
 		// Check if same line (Y within tolerance)
-		lastFrag := currentLine[len(currentLine)-1]
-		yDiff := absFloat(frag.Y - lastFrag.Y)
+		lastFrag := fragments[currentLine[len(currentLine)-1]]
+		yDiff := absFloat(fragments[idx].Y - lastFrag.Y)
 
 		if yDiff <= lastFrag.Height*0.5 {
-			currentLine = append(currentLine, frag)
+			currentLine = append(currentLine, idx)
 		} else {
 			lines = append(lines, currentLine)
-			currentLine = []text.TextFragment{frag}
+			currentLine = []int{idx}
 		}
 	}
 	if len(currentLine) > 0 {
 		lines = append(lines, currentLine)
 	}
 
-	// Assemble each line into a single fragment
-	var assembled []text.TextFragment
+	// Sort each line by X
 	for _, line := range lines {
-		if len(line) == 0 {
-			continue
-		}
-
-		// Sort line by X
 		sort.Slice(line, func(i, j int) bool {
-			return line[i].X < line[j].X
-		})
-
-		// Build text with smart spacing
-		var textBuilder strings.Builder
-		var lastEndX float64
-
-		for i, frag := range line {
-			if i > 0 {
-				gap := frag.X - lastEndX
-				// Add space if gap is significant (> 30% of font size)
-				if gap > frag.FontSize*0.3 {
-					textBuilder.WriteString(" ")
-				}
-			}
-			textBuilder.WriteString(frag.Text)
-			lastEndX = frag.X + frag.Width
-		}
-
-		// Compute bounding box
-		first, last := line[0], line[len(line)-1]
-		minY, maxY := first.Y, first.Y
-		for _, f := range line {
-			if f.Y < minY {
-				minY = f.Y
-			}
-			if f.Y+f.Height > maxY {
-				maxY = f.Y + f.Height
-			}
-		}
-
-		assembled = append(assembled, text.TextFragment{
-			Text:     textBuilder.String(),
-			X:        first.X,
-			Y:        first.Y,
-			Width:    (last.X + last.Width) - first.X,
-			Height:   maxY - minY,
-			FontSize: first.FontSize,
-			FontName: first.FontName,
+			return fragments[line[i]].X < fragments[line[j]].X
 		})
 	}
 
-	return assembled
+	return lines
+}
+
+// assembleLine assembles one line of groupCharacterLines (a non-empty list
+// of indices into fragments, sorted by X) into a single fragment
+func assembleLine(fragments []text.TextFragment, line []int) text.TextFragment {
+	// Build text with smart spacing
+	var textBuilder strings.Builder
+	var lastEndX float64
+
+	for i, idx := range line {
+		frag := fragments[idx]
+		if i > 0 {
+			gap := frag.X - lastEndX
+			// Add space if gap is significant (> 30% of font size)
+			if gap > frag.FontSize*0.3 {
+				textBuilder.WriteString(" ")
+			}
+		}
+		textBuilder.WriteString(frag.Text)
+		lastEndX = frag.X + frag.Width
+	}
+
+	// Compute bounding box
+	first, last := fragments[line[0]], fragments[line[len(line)-1]]
+	minY, maxY := first.Y, first.Y
+	for _, idx := range line {
+		f := fragments[idx]
+		if f.Y < minY {
+			minY = f.Y
+		}
+		if f.Y+f.Height > maxY {
+			maxY = f.Y + f.Height
+		}
+	}
+
+	return text.TextFragment{
+		Text:     textBuilder.String(),
+		X:        first.X,
+		Y:        first.Y,
+		Width:    (last.X + last.Width) - first.X,
+		Height:   maxY - minY,
+		FontSize: first.FontSize,
+		FontName: first.FontName,
+	}
 }
 
 // candidate represents a potential header/footer text
@@ -671,12 +686,24 @@ func (r *HeaderFooterResult) FilterFragments(pageIndex int, fragments []text.Tex
 		return fragments
 	}
 
-	// Check if this is a character-level PDF
+	// On a character-level page (one fragment per glyph) no single fragment can
+	// match the text of a region. Judge such a page the way Detect looked at it
+	// (preprocessPages): assemble the glyphs into lines, test every line like a
+	// word-level fragment, and let a matching line take its own glyphs with it.
 	charLevel := isCharacterLevel(fragments)
+	judged := fragments
+	var lines [][]int
+	if charLevel {
+		lines = groupCharacterLines(fragments)
+		judged = make([]text.TextFragment, len(lines))
+		for i, line := range lines {
+			judged[i] = assembleLine(fragments, line)
+		}
+	}
 
 	// Compute content bounds for position checking
-	minY, maxY := fragments[0].Y, fragments[0].Y
-	for _, frag := range fragments {
+	minY, maxY := judged[0].Y, judged[0].Y
+	for _, frag := range judged {
 		if frag.Y < minY {
 			minY = frag.Y
 		}
@@ -710,8 +737,27 @@ func (r *HeaderFooterResult) FilterFragments(pageIndex int, fragments []text.Tex
 
 	var filtered []text.TextFragment
 
+	if charLevel {
+		// Remove exactly the glyphs of the lines that are headers or footers;
+		// the glyphs of every other line stay, in their original order.
+		remove := make([]bool, len(fragments))
+		for i, line := range judged {
+			if r.isInHeaderFooter(pageIndex, line, refMinY, refMaxY, headerRegion, footerRegion, invertedCoords) {
+				for _, idx := range lines[i] {
+					remove[idx] = true
+				}
+			}
+		}
+		for i, frag := range fragments {
+			if !remove[i] {
+				filtered = append(filtered, frag)
+			}
+		}
+		return filtered
+	}
+
 	for _, frag := range fragments {
-		if r.isInHeaderFooter(pageIndex, frag, refMinY, refMaxY, headerRegion, footerRegion, invertedCoords, charLevel) {
+		if r.isInHeaderFooter(pageIndex, frag, refMinY, refMaxY, headerRegion, footerRegion, invertedCoords) {
 			continue
 		}
 		filtered = append(filtered, frag)
@@ -720,8 +766,9 @@ func (r *HeaderFooterResult) FilterFragments(pageIndex int, fragments []text.Tex
 	return filtered
 }
 
-// isInHeaderFooter checks if a fragment is in a detected header/footer region
-func (r *HeaderFooterResult) isInHeaderFooter(pageIndex int, frag text.TextFragment, refMinY, refMaxY, headerRegion, footerRegion float64, invertedCoords, charLevel bool) bool {
+// isInHeaderFooter checks if a fragment (on a character-level page: an
+// assembled line) is in a detected header/footer region
+func (r *HeaderFooterResult) isInHeaderFooter(pageIndex int, frag text.TextFragment, refMinY, refMaxY, headerRegion, footerRegion float64, invertedCoords bool) bool {
 	// Check headers
 	for _, header := range r.Headers {
 		if !containsPage(header.PageIndices, pageIndex) {
@@ -735,11 +782,6 @@ func (r *HeaderFooterResult) isInHeaderFooter(pageIndex int, frag text.TextFragm
 			distFromTop = refMaxY - (frag.Y + frag.Height)
 		}
 		if distFromTop < headerRegion {
-			// For character-level PDFs, use position-only filtering since
-			// individual characters won't match the assembled header text
-			if charLevel {
-				return true
-			}
 			if header.matches(frag.Text) {
 				return true
 			}
@@ -759,10 +801,6 @@ func (r *HeaderFooterResult) isInHeaderFooter(pageIndex int, frag text.TextFragm
 			distFromBottom = frag.Y - refMinY
 		}
 		if distFromBottom < footerRegion {
-			// For character-level PDFs, use position-only filtering
-			if charLevel {
-				return true
-			}
 			if footer.matches(frag.Text) {
 				return true
 			}
